@@ -104,7 +104,48 @@ type c12In struct {
 	// call and deadline: the application has set the package variable client.DefaultTimeout to that many ms for the case
 	// (0: left at 30 s); restored afterwards. A request whose parameters do not call SetTimeout is bound by it.
 	DefaultMs int64 `json:"default_ms,omitempty"`
+	// call: the schemes the Runtime was created with and the schemes the operation names (both empty: ["http"] for both, as
+	// every older case). The client selects one (the runtime's before the operation's, https preferred) and hands it to the
+	// transport in use whatever it is: ws and wss are legal in a swagger 2.0 document, and a caller may pass any string.
+	// What the call holds has to be released whichever scheme was selected and whoever refuses it.
+	RtSchemes []string `json:"rt_schemes,omitempty"`
+	OpSchemes []string `json:"op_schemes,omitempty"`
 }
+
+// the scheme lists the case uses
+func (in c12In) schemeLists() (rtS, opS []string) {
+	if len(in.RtSchemes) == 0 && len(in.OpSchemes) == 0 {
+		return []string{"http"}, []string{"http"}
+	}
+	return in.RtSchemes, in.OpSchemes
+}
+
+// the scheme the documented rule selects: the first of the runtime's list, else of the operation's, https when the list has it, else http
+func (in c12In) scheme() string {
+	sel := func(l []string) string {
+		if len(l) == 0 {
+			return ""
+		}
+		for _, s := range l {
+			if s == "https" {
+				return s
+			}
+		}
+		return l[0]
+	}
+	rtS, opS := in.schemeLists()
+	if v := sel(rtS); v != "" {
+		return v
+	}
+	if v := sel(opS); v != "" {
+		return v
+	}
+	return "http"
+}
+
+// net/http (the real http.Transport, and the transport inside httputil.DumpRequestOut) refuses every scheme but these two,
+// before it reads anything of the request body; it closes the body
+func (in c12In) netHTTPRefusesScheme() bool { s := in.scheme(); return s != "http" && s != "https" }
 
 // the value of client.DefaultTimeout when the harness starts (30 s)
 var c12OrigDefault = client.DefaultTimeout
@@ -247,6 +288,7 @@ func (c12) Rule() string {
 		"the error VALUE a failing source Read reports (a custom error, io.ErrUnexpectedEOF, io.EOF early = the file just ends, io.ErrClosedPipe, context.Canceled, errors wrapping io.EOF / io.ErrUnexpectedEOF, os.ErrDeadlineExceeded, io.ErrNoProgress; alone or with some bytes; sticky) at every failing position incl. inside the sniffing window; " +
 		"reuse: histories of 1-5 sequential calls on ONE Runtime against a real loopback server through a real http.Transport (connection reuse enabled or not, the runtime's own client or NewWithClient, Content-Length or chunked, bodies of 10 bytes to 5 MiB of which the reader takes nothing, a few bytes, half, or all): bytes taken off the connection, end seen, Close count per body, connections accepted by the server; " +
 		"a stub response body without a scripted fault refuses Reads once the context of the exchange has ended, as a net/http body does; " +
+		"the scheme selected for a call (lists of the runtime and of the operation: https, http+https, ws, wss, mixed, other spellings, strings a caller may pass) x a stub transport of the caller / the real http.Transport / the Debug dump, which net/http refuses for everything but http and https; " +
 		"deadline: caller deadline absent, on the operation or on the runtime x timeout 0, negative, tiny, ordinary x the client's own Timeout. Non-trivial: every drain case with at least one segment, every call case, every deadline case."
 }
 
@@ -606,11 +648,12 @@ func c12RunCall(in c12In) c12Obs {
 	// the http.Client in use: the runtime's own, one handed to NewWithClient, one named by the operation
 	var r *client.Runtime
 	var opClient *http.Client
+	rtSchemes, opSchemes := in.schemeLists()
 	switch in.ClientKind {
 	case 1:
-		r = client.NewWithClient(host, "/", []string{"http"}, &http.Client{Transport: transport, Timeout: in.clientTimeout()})
+		r = client.NewWithClient(host, "/", rtSchemes, &http.Client{Transport: transport, Timeout: in.clientTimeout()})
 	case 2:
-		r = client.New(host, "/", []string{"http"})
+		r = client.New(host, "/", rtSchemes)
 		r.Transport = c12RTFunc(func(req *http.Request) (*http.Response, error) {
 			if req.Body != nil {
 				_ = req.Body.Close()
@@ -619,7 +662,7 @@ func c12RunCall(in c12In) c12Obs {
 		})
 		opClient = &http.Client{Transport: transport, Timeout: in.clientTimeout()}
 	default:
-		r = client.New(host, "/", []string{"http"})
+		r = client.New(host, "/", rtSchemes)
 		r.Transport = transport
 	}
 	if in.KeepAlive {
@@ -673,7 +716,7 @@ func c12RunCall(in c12In) c12Obs {
 	}
 	op := &rt.ClientOperation{
 		ID: "up", Method: "POST", PathPattern: pattern, ProducesMediaTypes: []string{"application/json"},
-		ConsumesMediaTypes: []string{"multipart/form-data"}, Schemes: []string{"http"},
+		ConsumesMediaTypes: []string{"multipart/form-data"}, Schemes: opSchemes,
 		Params: writer, AuthInfo: auth, Client: opClient,
 		Reader: rt.ClientResponseReaderFunc(func(resp rt.ClientResponse, _ rt.Consumer) (interface{}, error) {
 			if _, err := io.ReadFull(resp.Body(), make([]byte, c12ReaderNeeds)); err != nil {
@@ -1061,11 +1104,19 @@ func (c12) Coq(inAny any, obsAny any) string {
 	}
 	reads := in.Reads
 	tr := ""
-	if in.Fail || in.Real || in.Stall {
+	debug := in.Debug
+	// a scheme net/http does not speak: the real transport refuses the request without reading its body, and so does the
+	// transport inside the Debug dump of the request (Submit then returns the dump's error): for the model both are a transport
+	// that fails after 0 reads. A stub RoundTripper of the caller is handed the request whatever the scheme.
+	refused := in.netHTTPRefusesScheme() && (in.Real || in.Debug)
+	if refused {
+		debug = false
+	}
+	if in.Fail || in.Real || in.Stall || refused {
 		if reads < 0 {
 			reads = 200 // more than any program has writes: to the end
 		}
-		if in.Real || in.Stall {
+		if in.Real || in.Stall || refused {
 			reads = 0
 		}
 		tr = fmt.Sprintf("(TFail %d)", reads)
@@ -1090,7 +1141,7 @@ func (c12) Coq(inAny any, obsAny any) string {
 			tr = fmt.Sprintf("(TRespond (Some %d) %s)", reads, resp)
 		}
 	}
-	sc := fmt.Sprintf("(mksc %s %s %s %s %s)", coqBool(in.ParamErr), auth, coqBool(in.LateErr), tr, coqBool(in.Debug))
+	sc := fmt.Sprintf("(mksc %s %s %s %s %s)", coqBool(in.ParamErr), auth, coqBool(in.LateErr), tr, coqBool(debug))
 	parent := "None"
 	if in.CallParentMs != 0 {
 		parent = "(Some " + coqZ(in.CallParentMs*1000000) + ")"
@@ -1233,6 +1284,20 @@ func (c12) Category(inAny any, obsAny any) (string, bool) {
 	}
 	if in.LateErr {
 		a += "/url-error"
+	}
+	if len(in.RtSchemes) != 0 || len(in.OpSchemes) != 0 {
+		from := "operation"
+		if len(in.RtSchemes) != 0 {
+			from = "runtime"
+		}
+		switch sch := in.scheme(); sch {
+		case "http", "https":
+			a += "/scheme-" + sch + "-of-" + from
+		case "ws", "wss":
+			a += "/scheme-websocket-of-" + from
+		default:
+			a += "/scheme-other-of-" + from
+		}
 	}
 	t := "answers"
 	switch {
@@ -1514,6 +1579,21 @@ func (c12) Gen(r *rand.Rand, tier string, i int) any {
 			in.RespFaultAt = r.Intn(in.RespSize + 1)
 		}
 	}
+	if r.Intn(5) == 0 { // the scheme selected for the call: named by the runtime or by the operation, one the transport speaks or not
+		l := c12SchemeLists[r.Intn(len(c12SchemeLists))]
+		if r.Intn(2) == 0 {
+			in.RtSchemes = l
+			if r.Intn(2) == 0 {
+				in.OpSchemes = c12SchemeLists[r.Intn(len(c12SchemeLists))]
+			}
+		} else {
+			in.OpSchemes = l
+		}
+		if !in.Stall && r.Intn(4) == 0 { // through the real http.Transport (nobody listens there)
+			in.Real, in.Fail, in.Reads = true, true, 0
+			in.Binary, in.RespSize, in.RespFault, in.RespFaultAt, in.RespFaultWithData = false, 0, 0, 0, false
+		}
+	}
 	if r.Intn(3) == 0 { // an http.Client of the caller
 		in.ClientKind = 1 + r.Intn(2)
 		if in.timed() {
@@ -1587,6 +1667,47 @@ func c12EnumErrValues() []any {
 						}
 						out = append(out, in2)
 					}
+				}
+			}
+		}
+	}
+	return out
+}
+
+// scheme lists a runtime is created with / an operation names: what a swagger 2.0 document may declare (http, https, ws, wss),
+// in any order and number, other spellings, and strings a caller may pass
+var c12SchemeLists = [][]string{
+	{"https"}, {"http", "https"}, {"ws"}, {"wss"}, {"ws", "wss"}, {"wss", "http"}, {"ws", "https"}, {"HTTP"}, {"Https"},
+	{"ftp"}, {"unix"}, {"h2c"}, {"http+unix"}, {"x"},
+}
+
+// c12EnumSchemes: every scheme list, named by the runtime or by the operation x the goroutine's programs x what the transport in
+// use does (a stub of the caller failing before / after reading the body or answering; the real http.Transport) x auth writer x Debug
+func c12EnumSchemes(progs [][]c12File) []any {
+	var out []any
+	type tb struct {
+		fail, real bool
+		reads      int
+	}
+	tbs := []tb{{true, false, 0}, {true, false, -1}, {false, false, -1}, {false, false, 0}, {true, true, 0}}
+	for li, l := range c12SchemeLists {
+		for pi, files := range progs {
+			for ti, t := range tbs {
+				for di, dbg := range []bool{false, true} {
+					in := c12In{Kind: "call", NValues: (li + pi + ti) % 2, Files: files, Fail: t.fail, Real: t.real, Reads: t.reads, Debug: dbg,
+						KeepAlive: !t.fail && (li+pi)%2 == 0, ClientKind: (li + ti + di) % 3}
+					if (li+pi+ti+di)%2 == 0 {
+						in.OpSchemes = l
+					} else {
+						in.RtSchemes = l
+						if (li+ti)%3 == 0 {
+							in.OpSchemes = []string{"http"}
+						}
+					}
+					if (pi+ti+di)%3 == 0 {
+						in.Auth, in.Asks = 1, (li+di)%2 == 0
+					}
+					out = append(out, in)
 				}
 			}
 		}
@@ -1783,6 +1904,7 @@ func (c12) Enumerate(tier string) []any {
 	}
 	out = append(out, c12EnumErrValues()...)
 	out = append(out, c12EnumReuse()...)
+	out = append(out, c12EnumSchemes(progs)...)
 	// the default request timeout (never set by the parameters, or set to its very value) against a caller deadline that is
 	// absent, passed, sooner, next to it, later, far later; the default left at 30 s or changed by the application
 	for _, def := range []int64{0, 50, 5400_000} {
